@@ -27,6 +27,11 @@ open Gen.Avx2 Gen.VecConsts Lane
     (Avx2.blend_epi32 a b 170).get i = Lane.blend32 2 (a.get i) (b.get i) := by
   match i with
   | 0 => rfl | 1 => rfl | 2 => rfl | 3 => rfl
+/-- the complementary immediate with exchanged operands is the same blend -/
+@[lane_get] theorem V4.get_blend_55 (a b : V4) (i : Fin 4) :
+    (Avx2.blend_epi32 a b 85).get i = Lane.blend32 2 (b.get i) (a.get i) := by
+  match i with
+  | 0 => rfl | 1 => rfl | 2 => rfl | 3 => rfl
 
 -- every lane-wise intrinsic of `Isa/Avx2.lean`, the lane reads and the register constants of the library
 attribute [lane_get] Avx2.add_epi64 Avx2.sub_epi64 Avx2.and_si256 Avx2.andnot_si256 Avx2.xor_si256 Avx2.or_si256
@@ -98,7 +103,7 @@ theorem add_s_b_small_get (a b : V4) (i : Fin 4) :
 theorem add_b_small_get (a b : V4) (i : Fin 4) :
     (add_avx_b_small a b).get i = L2.bin add_avx_b_small (a.get i) (b.get i) := by
   unfold L2.bin
-  simp only [add_avx_b_small, shift_get, lane_get]
+  simp only [add_avx_b_small, shift_get, add_s_b_small_get, lane_get]
 
 theorem sub_get (a b : V4) (i : Fin 4) :
     (sub_avx__vVV a b).get i = L2.bin sub_avx__vVV (a.get i) (b.get i) := by
